@@ -1,6 +1,6 @@
 (* Proofs/TypingDynamic.v -- a well-typed expression evaluates (AstVm::eval, Model/Expr.eval with
    the operator table read from const_simplify.rs) to a value of the predicted type. *)
-From TV Require Import Base.I32 Base.F32 Model.Ops Model.Expr Model.Typing Spec.TypingRules
+From TV Require Import Base.I32 Base.F32 Model.Ops Model.Expr Model.TypeCheck Spec.TypingRules
   Gen.OpTable Proofs.TypingExpr.
 Open Scope Z_scope.
 
